@@ -678,7 +678,7 @@ impl Vrps {
         // Disable collector if update_after demands it. If anything goes
         // wrong here, we simply keep the collector in place.
         if let Some(duration) = self.update_after {
-            if let Some(status) = engine.store_status()? {
+            if let Ok(Some(status)) = engine.store_status() {
                 if let Ok(age) = SystemTime::from(
                     status.last_update
                 ).elapsed() {
